@@ -135,6 +135,9 @@ class Engine(object):
                     raise Undecided('nx.DiGraph with arguments')
                 return VOpaque(fresh('nxdg', Obj), 'nxdigraph')
             return VCallable(mk, 'nx.DiGraph')
+        if modname == 'dn' and ('function::' + attr) in self.funcs:
+            # dn.<name>: the functional form defined in dynetx/classes/function.py (real source, inlined)
+            return self.function_value('function::' + attr)
         if modname == 'copy' and attr == 'deepcopy':
             return VCallable(b_deepcopy, 'deepcopy')
         if modname == 'copy' and attr == 'copy':
@@ -149,6 +152,10 @@ class Engine(object):
             return VCallable(BUILTINS[name], name)
         if name in ('nx', 'np', 'copy', 'dn'):
             return VModule(name)
+        if name == 'tqdm':
+            # trusted: tqdm(iterable, ...) iterates its first argument, in order
+            interp.ctx.notes.append('trusted: tqdm(x, ...) iterates x')
+            return VCallable(lambda i, a, k, f: a[0], 'tqdm')
         if name in EXC_PARENTS:
             return VExcClass(name)
         if name == 'deepcopy':
@@ -457,6 +464,10 @@ def b_defaultdict(interp, argv, kwv, fr):
     if len(argv) == 1 and argv[0].kind == 'type' and argv[0].name == 'int':
         d = VDictLit([], role='defaultdict-int')
         return d
+    if len(argv) == 1 and argv[0].kind == 'lambda':
+        from .accmodel import lambda_depth, VAcc
+        if lambda_depth(argv[0].node) == 3:
+            return VAcc()
     raise Undecided('defaultdict factory')
 
 
